@@ -516,6 +516,10 @@ func (g *G) attr(a string, c *svcCtx) *Y {
 		if g.on("interpolation") && len(c.vars) > 0 && g.chance("bool-interp", 1, 5) {
 			return Str("${" + "BOOLV" + ":-true}")
 		}
+		if g.chance("legacy-bool", 1, 4) {
+			// YAML 1.1 spellings, still accepted (with a warning) by the loader's boolean cast
+			return Raw(g.pick("legacy-bool-v", []string{"yes", "no", "on", "off", "y", "n"}))
+		}
 		return Bool(g.chance(a+"-v", 1, 2))
 	case "stop_grace_period":
 		return Str(g.pick("sgp", []string{"20s", "1m", "1h30m"}))
